@@ -349,6 +349,20 @@ def case_ip6(c, out):
     out.fail("ip6-exploded", "exploded form of %s is %r" % (ref.exploded, x.to_str(zero_drop=False, section_drop=False, ipv4=False)))
   if repr(x) != "IPAddr6('%s')" % canon:
     out.fail("ip6-repr", "repr %r" % (x,))
+  # forced mixed notation: whatever the compression chosen, the text must be a well-formed IPv6 text
+  # of this very address (ipaddress and POX itself must both read it back)
+  for kw in ({"ipv4": True}, {"ipv4": True, "zero_drop": False}, {"ipv4": True, "section_drop": False}):
+    r0, mixed = _raises(x.to_str, **kw)
+    if r0:
+      out.fail("ip6-mixed-raises", "to_str(%r) of %s raised %r" % (kw, ref.exploded, mixed))
+      continue
+    try:
+      back = ipaddress.IPv6Address(mixed).packed
+    except ValueError:
+      back = None
+    r1, y2 = _raises(A.IPAddr6, mixed)
+    if back != raw or r1 or y2.raw != raw or not mixed.endswith(str(ipaddress.IPv4Address(raw[12:]))):
+      out.fail("ip6-mixed-notation", "to_str(%r) of %s is %r, which does not read back as the same address" % (kw, ref.exploded, mixed))
   r, y = _raises(A.IPAddr6, s)
   if r or y != x or str(y) != s or hash(y) != hash(x):
     out.fail("ip6-roundtrip", "IPAddr6(str(x)) != x for %s (str %r): %r" % (ref.exploded, s, y))
